@@ -201,12 +201,14 @@ def check_unscripted_panic(tr):
     """an operation panicked although the case scripts no panic (wrapped iterator, clone, closure, chunk size 0)"""
     bad = []
     for oi in tr.ops:
+        if oi.panic == "drop" and tr.case.droppanic is not None:
+            continue
         if oi.panic and oi.panic not in ("probe", "clone", "closure"):
             zero = (oi.op in ("bufnew", "foreach", "enumforeach", "fold") and oi.toks[1] == "0")
             if not (oi.panic == "chunksize" and zero):
                 bad.append("`%s` called at line %d panicked (%s) although nothing in the case panics" % (" ".join(oi.toks), oi.call, oi.panic))
     for (i, toks) in tr.own:
-        if toks[0] == "panic" and toks[1] not in ("probe", "clone"):
+        if toks[0] == "panic" and toks[1] not in ("probe", "clone") and not (toks[1] == "drop" and tr.case.droppanic is not None):
             bad.append("the owner phase panicked (%s)" % toks[1])
     return bad
 
@@ -575,6 +577,10 @@ def ledger(tr):
         elif body[0] == "visit":
             v = int(body[2])
             moved[v] = moved.get(v, 0) + 1
+        elif body[0] == "taken":
+            # received by a caller from a chunk / remainder whose destruction then panicked
+            for x in body[1:]:
+                moved[int(x)] = moved.get(int(x), 0) + 1
         elif body[0] == "ret":
             r = body[1:]
             if r[0] == "item":
@@ -708,9 +714,11 @@ def check_C11(tr):
         for (_, vb, B) in reports:
             if va is not None and vb is not None and A.ret < B.call and vb > va:
                 bad.append("reported length grows from %d (query returned at line %d) to %d (query called at line %d)" % (va, A.ret, vb, B.call))
-    # (b) zero / No is definitive
+    # (b) zero / No is definitive -- unless the wrapped iterator lies about its exact size (`hint=fixed<k>`): the
+    # crate reports what the iterator claimed, and the property is about honest sources
+    liar = c.is_iter() and c.hint.startswith("fixed")
     for (line, v, oi) in reports:
-        if v == 0:
+        if v == 0 and not liar:
             for p in tr.pulls():
                 if p.slot == 0 and p.call > oi.ret and tr.deliveries(p):
                     bad.append("length 0 / No reported at line %d, but the pull called at line %d delivered" % (oi.ret, p.call))
